@@ -1,1 +1,2 @@
+pub mod exec;
 pub mod front;
